@@ -230,7 +230,40 @@ def run(facts, tier):
     if bad:
         res.add(Finding("C14-11", "remove_from_parent", "XmlItem::remove_from_parent calls %s: the order key that append / insert_before have just "
                         "assigned to the moved node is cleared again, the node ends up attached with key 0" % bad, rp["file"], rp["line"], {}))
+    slot_index(facts, res, "C14-12")
     return res
+
+
+SHIFTING = {"filter", "filter_map", "skip", "skip_while", "flat_map", "flatten", "rev", "chain", "step_by", "dedup", "dedup_by", "dedup_by_key",
+            "take_while", "map_while", "scan", "zip", "peekable", "windows", "chunks"}
+
+
+def slot_index(facts, res, rule="C14-12", crates=("xml_info", "xml_dom")):
+    """A position found with `iter().position(..)` is handed to insert / remove / indexing of the same vector (order keys of
+    DocumentOrder, child_index of the three parents): it has to be the *slot*.  Once an adapter that drops or reorders entries
+    (filter_map(|v| v.upgrade()), skip, rev ..) stands between the vector and `position`, the number is a rank among the
+    survivors - dead weak entries in front of the node make every later insert / remove act too early."""
+    st = res.rule(rule, instances=0)
+    for f in facts.fns.values():
+        if f["crate"] not in crates or "body" not in f or f.get("derived") or f.get("test"):
+            continue
+        for n in walk(f["body"]):
+            if n.get("k") == "MethodCall" and n.get("m") in ("position", "rposition"):
+                chain, r = [], n.get("recv")
+                while isinstance(r, dict) and r.get("k") == "MethodCall":
+                    chain.append(r["m"])
+                    r = r.get("recv")
+                if not (isinstance(r, dict) and r.get("k") == "Field"):
+                    continue        # a position inside a string or a local scratch list is not a slot of shared storage
+                st["instances"] += 1
+                bad = [m for m in chain if m in SHIFTING]
+                res.oblige(1, not bad)
+                if bad:
+                    res.add(Finding(rule, "%s|%s" % (facts.root_of(f)["path"], r.get("name")), "%s looks a position up behind %s: the result is a rank among "
+                                    "the entries that adapter lets through, not the slot in `%s` that insert / remove / indexing need"
+                                    % (f["path"], "/".join(reversed(bad)), r.get("name")), f["file"], n.get("ln"), {}))
+    if st["instances"] < 3:
+        raise BrokenCheck("%s: %d slot look-ups found (floor 3)" % (rule, st["instances"]))
 
 
 def c14_8(facts, res, rule="C14-8"):
